@@ -34,10 +34,12 @@ unsigned long vp_graph_refs() { return vp_graph().my_wait_context_vertex.get_con
 // typed storage handed out by the harness's r1::allocate stub (cbmc cannot constant-propagate a vptr stored into malloc'ed
 // bytes; separate globals, not an array: its simplifier decides pointer (in)equalities only for offset-0 addresses)
 #define VP_TASK_STORAGE(TASK_T) \
-  static vp_raw<TASK_T> vp_t0, vp_t1, vp_t2, vp_t3, vp_t4, vp_t5, vp_t6, vp_t7; \
+  static vp_raw<TASK_T> vp_t0, vp_t1, vp_t2, vp_t3, vp_t4, vp_t5, vp_t6, vp_t7, vp_t8, vp_t9, vp_t10, vp_t11, vp_t12, vp_t13, vp_t14, vp_t15; \
   extern "C" void* vp_task_mem(unsigned i) { \
     switch (i) { case 0: return &vp_t0.x; case 1: return &vp_t1.x; case 2: return &vp_t2.x; case 3: return &vp_t3.x; \
-                 case 4: return &vp_t4.x; case 5: return &vp_t5.x; case 6: return &vp_t6.x; default: return &vp_t7.x; } } \
+                 case 4: return &vp_t4.x; case 5: return &vp_t5.x; case 6: return &vp_t6.x; case 7: return &vp_t7.x; \
+                 case 8: return &vp_t8.x; case 9: return &vp_t9.x; case 10: return &vp_t10.x; case 11: return &vp_t11.x; \
+                 case 12: return &vp_t12.x; case 13: return &vp_t13.x; case 14: return &vp_t14.x; default: return &vp_t15.x; } } \
   extern "C" unsigned vp_task_size() { return sizeof(TASK_T); } \
   /* run a spawned task (what a worker does). The only task type of the unit is TASK_T (the r1::allocate stub hands out */ \
   /* TASK_T storage only): called non-virtually. Returns the bypass task. */ \
